@@ -14,6 +14,7 @@ type checkDef struct {
 
 var registry = map[string]checkDef{
 	"C03": {"exploration", C03},
+	"C14": {"exploration", C14},
 }
 
 // Main runs one check and returns the process exit code.
